@@ -355,6 +355,20 @@ func (w *World) judgeQuery(r *Replica, path string, data []byte, h int64, res *a
 		if c == nil || c.Cmp(mc) != 0 {
 			bad("claim %v, committed %s", c, mc)
 		}
+		if pc := pointClass(point); h == r.State.LastBlockHeight && (pc == "pre" || pc == "bb.pre") {
+			// between blocks, for the height just committed: every field of the answer against the record the
+			// node itself holds as committed
+			_, sc, _, _ := r.App.VerifCtrlers()
+			if rec := sc.ReadRewardOf(data); rec != nil {
+				for _, f := range [][3]string{{"issued", d.Issued, rec.GetIssued().Dec()}, {"withdrawn", d.Withdrawn, rec.GetWithdrawn().Dec()},
+					{"slashed", d.Slashed, rec.GetSlashed().Dec()}, {"cumulated", d.Cumulated, rec.GetCumulated().Dec()}} {
+					if f[1] != "" && f[1] != f[2] {
+						bad("%s %s, the committed record holds %s", f[0], f[1], f[2])
+					}
+				}
+				w.Probes.Hit("query.judged.reward-record")
+			}
+		}
 		w.Probes.Hit("query.judged.reward")
 	case "gov_params":
 		if res.Code != 0 {
